@@ -83,17 +83,18 @@ ASSUMPTIONS = [
     "grouping may raise on a form (counted as rejected); the metadata entry estimated_polynomial_degree added by "
     "attach_estimated_degrees is ignored when metadata are compared",
 ]
-BUDGET = {"quick": 55, "thorough": 420}
-NCASES = {"quick": 2400, "thorough": 48000}
+BUDGET = {"quick": 45, "thorough": 420}
+NCASES = {"quick": 3000, "thorough": 36000}
 CASE_TIMEOUT = 40.0
 EVAL_COUNTER = "cases"
+# about 35% of what a complete run on a quiet machine observes
 FLOORS = {
-    "quick": {"case_held": 500, "groups_compared": 3000, "groups_nonzero": 2500, "merges_observed": 500,
-              "slices_with_distinct_metadata": 300, "cd_groups_compared": 150, "build_events": 500, "attach_events": 250,
-              "tuple_id_inputs": 300, "everywhere_appended_groups": 300, "probe_pairs": 60},
-    "thorough": {"case_held": 10000, "groups_compared": 60000, "groups_nonzero": 50000, "merges_observed": 10000,
-                 "slices_with_distinct_metadata": 6000, "cd_groups_compared": 3000, "build_events": 10000, "attach_events": 5000,
-                 "tuple_id_inputs": 6000, "everywhere_appended_groups": 6000, "probe_pairs": 60},
+    "quick": {"case_held": 950, "groups_compared": 5500, "groups_nonzero": 5300, "merges_observed": 1100,
+              "slices_with_distinct_metadata": 1250, "cd_groups_compared": 900, "build_events": 1000, "attach_events": 450,
+              "tuple_id_inputs": 1050, "everywhere_appended_groups": 1400, "probe_pairs": 60},
+    "thorough": {"case_held": 11700, "groups_compared": 69000, "groups_nonzero": 66000, "merges_observed": 13600,
+                 "slices_with_distinct_metadata": 15000, "cd_groups_compared": 11200, "build_events": 12000, "attach_events": 5500,
+                 "tuple_id_inputs": 13200, "everywhere_appended_groups": 17500, "probe_pairs": 60},
 }
 KEPT_APART_NEEDED = ["ndarray-one-entry", "float-beyond-8-digits", "type-int-vs-str", "type-float-vs-int", "type-bool-vs-int",
                      "keys", "seq-nesting", "value-int", "value-str"]
@@ -967,12 +968,15 @@ def case(ctx, i, rng):
                     ctx.covered("rejected_with", "lowering: " + type(ex).__name__ + ": " + str(ex)[:60])
                     return
             try:
-                G = group_form_integrals(F, F.ufl_domains(), do_append_everywhere_integrals=append)
+                # (Form.ufl_domains() refuses forms whose two meshes carry arguments with the same number)
+                domains = F.ufl_domains() if not two_meshes else tuple(sorted({itg.ufl_domain() for itg in F.integrals()}, key=lambda d: d.ufl_id()))
+                G = group_form_integrals(F, domains, do_append_everywhere_integrals=append)
             except Exception as ex:
                 ctx.count("rejected")
+                ctx.count("rejected_grouping_raised_" + type(ex).__name__)
                 ctx.covered("rejected_with", type(ex).__name__ + ": " + str(ex)[:70])
                 return
-            events.append(("group_form_integrals", (F, F.ufl_domains()), {"do_append_everywhere_integrals": append}, G))
+            events.append(("group_form_integrals", (F, domains), {"do_append_everywhere_integrals": append}, G))
             G2 = G
             if degrees:
                 try:
